@@ -52,7 +52,7 @@ def main():
                   'source_commits': [], 'add_only': True},
         'engines': [{'name': 'hypothesis-runner', 'path': 'run_check.py',
                      'serves_properties': [c['property_id'] for c in checks],
-                     'kind_free_text': 'Hypothesis 6.168 strategies producing JSON cases, executed by pure run_case functions against explicit oracles; sharded over processes; exhaustive enumeration for small finite sub-domains; fork/kill fault injection for the store'}],
+                     'kind_free_text': 'Hypothesis 6.168 strategies producing JSON cases, executed by pure run_case functions against explicit oracles; sharded over processes; exhaustive enumeration for small finite sub-domains; fork/kill fault injection for the store; in the thorough tier additionally atheris (libFuzzer) shards that drive the same strategies and oracles through fuzz_one_input with coverage feedback from elfi'}],
         'checks': checks,
         'not_applicable': na,
         'notes': 'See DESIGN.md. KNOWN_FINDINGS.txt lists open findings and fixed defects; replays/regress holds their reproducers.',
